@@ -103,7 +103,7 @@ func (e *sbEngine) do(a sbAction) {
 			}
 		}
 		e.mu.Unlock()
-	case "unload":
+	case "unload", "unloadfinish":
 		m := a.Model % e.c.NModels
 		e.mu.Lock()
 		for _, i := range e.live() {
@@ -121,6 +121,29 @@ func (e *sbEngine) do(a sbAction) {
 			e.sched.expireRunner(e.models[m])
 			e.unloading.Add(-1)
 		}()
+		if a.Kind == "unloadfinish" {
+			// the explicit unload races with the end of the last request(s) that use the runner: every request holding a
+			// runner of this model finishes right now, without waiting for the unload call to return
+			e.mu.Lock()
+			var held []*sbReq
+			for _, r := range e.reqs {
+				if r.granted != nil && !r.finished && r.model == m {
+					held = append(held, r)
+					r.finished = true
+					e.logf("finish req=%d", r.id)
+				}
+			}
+			if len(held) > 0 {
+				e.flag("unload_races_with_last_finish")
+			}
+			e.mu.Unlock()
+			for i := 0; i < a.Idx%3; i++ {
+				runtime.Gosched()
+			}
+			for _, r := range held {
+				r.cancel()
+			}
+		}
 	case "advance":
 		d := sbDurations[a.Dur%len(sbDurations)]
 		if e.settle() {
@@ -212,8 +235,20 @@ func (e *sbEngine) drain() {
 		e.drainIncomplete = true
 		return
 	}
-	time.Sleep(61 * time.Second) // every finite keep-alive used by the generator has elapsed
-	e.settle()
+	time.Sleep(6 * time.Minute) // every finite keep-alive has elapsed (the longest is the default of 5 minutes)
+	if e.settle() {
+		// a runner that is still there must owe it to a request that asked for an infinite keep-alive
+		e.mu.Lock()
+		for _, i := range e.insts {
+			if i.closeBegun == 0 && i.resolved && !i.everInfinite {
+				e.violate("C02", "runner instance %d (model %d) is still running 6 minutes after the last request finished although no request it served asked for an infinite keep-alive", i.id, i.model)
+			}
+		}
+		e.mu.Unlock()
+		if e.violated() {
+			return
+		}
+	}
 	for _, m := range e.models { // infinite keep-alive: explicit unload, as `ollama stop` does
 		e.sched.expireRunner(m)
 	}
@@ -296,7 +331,8 @@ func sbRun(t *testing.T, c sbCase, prop string) (info sbInfo, viol []sbViolation
 			// the unload then takes 0.25-5 s of virtual time depending on the machine's real free memory.
 			gi.Variant = "v0"
 		}
-		gi.TotalMemory, gi.FreeMemory = room, room
+		gi.TotalMemory, gi.FreeMemory = room, uint64(float64(room)*sbFree[c.Free%len(sbFree)])
+		gi.UnreliableFreeMemory = c.Unreliable
 		e.inv = append(e.inv, gi)
 	}
 	e.cpu = discover.GpuInfo{Library: "cpu", ID: "cpu"}
@@ -424,6 +460,11 @@ func (sbPerturb) Handle(_ context.Context, r slog.Record) error {
 	}
 	return nil
 }
+
+// The driver overlays a copy of sched.go with a verifYield call in front of every stand-alone Lock()/RLock()
+// statement (CHECK key yield_points): the windows between two critical sections that have no log call in them (for
+// example between needsReload returning and useLoadedRunner locking) become perturbation points too.
+func init() { verifYield = sbPerturbPoint }
 
 // sbPerturbPoint lets the fake runner's methods act as additional perturbation points.
 func sbPerturbPoint(msg string) {
